@@ -46,11 +46,15 @@ fn main() {
         "VOC1" => voc::gen_raw(seed, thorough, true),
         "C06" => voc::gen_c06(seed, thorough),
         "C07" => voc::gen_c07(seed, thorough),
+        "C11" => engine::gen_c11(seed, thorough),
+        "C12" => engine::gen_c12(seed, thorough),
         "C13" => voc::gen_c13(seed, thorough),
         "C14" => voc::gen_c14(seed, thorough),
         "C08" => c08::gen_c08(seed, thorough),
         "C09" => c08::gen_c09(seed, thorough),
         "C10" => c19::gen_c10(seed, thorough),
+        "C15" => engine::gen_c15(seed, thorough),
+        "C16" => engine::gen_c16(seed, thorough),
         "C19" => c19::gen_c19(seed, thorough),
         "C20" => c20::gen(seed, thorough),
         _ => {
